@@ -25,6 +25,12 @@ MN_DUP = {
     "unary_only": (["A", "B"], [["A", "B"], ["A"], ["B"]]),
     "tri_clique": (["A", "B", "C"], [["A", "B", "C"], ["A", "B"]]),
 }
+# models whose clique tree has sepsets containing a single-state variable: (nodes, scopes, cardinalities)
+MN_CARD1 = {
+    "card1sep": (["A", "B", "C", "D", "X"], [["A", "B", "X"], ["A", "C", "X"], ["A", "D"]], dict(A=2, B=2, C=2, D=2, X=1)),
+    "card1sep2": (["X", "D", "C", "B", "A"], [["D", "A"], ["X", "A", "B"], ["C", "X", "A"]], dict(A=2, B=2, C=2, D=2, X=1)),
+    "card1chain": (["A", "B", "C", "X"], [["A", "X"], ["X", "B"], ["B", "C"], ["A", "B"]], dict(A=2, B=2, C=2, X=1)),
+}
 GRAPHS5 = {
     "cycle5": [("A", "B"), ("B", "C"), ("C", "D"), ("D", "E"), ("E", "A")],
     "cycle4": [("A", "B"), ("B", "C"), ("C", "D"), ("D", "A")],
@@ -32,6 +38,9 @@ GRAPHS5 = {
     "chordal": [("A", "B"), ("B", "C"), ("C", "A"), ("C", "D")],
     "wheel": [("A", "B"), ("B", "C"), ("C", "D"), ("D", "A"), ("E", "A"), ("E", "B"), ("E", "C"), ("E", "D")],
     "two_cycles": [("A", "B"), ("B", "C"), ("C", "D"), ("D", "A"), ("C", "E"), ("E", "D")],
+    "cycle4_plus_edge": [("A", "B"), ("B", "C"), ("C", "D"), ("D", "A"), ("E", "F")],
+    "cycle4_plus_tree": [("A", "B"), ("B", "C"), ("C", "D"), ("D", "A"), ("E", "F"), ("F", "G")],
+    "two_trees": [("A", "B"), ("C", "D"), ("D", "E")],
 }
 
 
@@ -59,6 +68,22 @@ def scenarios(tier, seed):
         for card in C.card_options(nodes, tier)[:2]:
             for conv in ["to_factor_graph", "to_junction_tree", "fg_roundtrip", "fg_to_junction_tree", "partition"]:
                 add(family=f"mn/{conv}/{mname}", kind="mn", conv=conv, model=mname, nodes=nodes, scopes=scopes, card=card)
+    for mname, (nodes, scopes, card) in MN_CARD1.items():
+        for conv in ["to_junction_tree", "fg_to_junction_tree"]:
+            for hs in range(nh):
+                for st in ("default", "str"):
+                    add(family=f"mn/{conv}/{mname}", kind="mn", conv=conv, model=mname, nodes=nodes, scopes=scopes, card=card, hashseed=hs, states=st,
+                        fixed_factors=[0] if len(scopes) > 2 else [], fixed_seed=hs + 1)
+    # every assignment of names to the roles of card1sep (ties between sepset sizes are broken by clique enumeration order)
+    roles, rscopes, rcard = MN_CARD1["card1sep"]
+    perms = list(itertools.permutations("ABCDE"))
+    for pi, perm in enumerate(perms):
+        if tier == "quick" and pi % 4 != seed % 4:
+            continue
+        ren = dict(zip(roles, perm))
+        add(family="mn/to_junction_tree/card1sep_perm", kind="mn", conv="to_junction_tree", model=f"card1sep_perm{pi}", nodes=sorted(perm),
+            scopes=[[ren[v] for v in s] for s in rscopes], card={ren[v]: k for v, k in rcard.items()}, hashseed=pi % nh, states="default",
+            fixed_factors=[0], fixed_seed=pi + 1)
     for gname, edges in GRAPHS5.items():
         for heur in ["H1", "H2", "H3", "H4", "H5", "H6", "order", "order_rev"]:
             for inplace in (False, True):
